@@ -1,6 +1,8 @@
 import G3d.DriverCore
 import G3d.SoftFloat
 import G3d.DriverAlgebra
+import G3d.DriverGeom
+import G3d.DriverMesh
 import G3d.DriverPrim
 import G3d.DriverPrimStats
 /-!
@@ -14,6 +16,12 @@ variable {α : Type} [Num α] [FloatIO α]
 
 def runOp (op : String) : RdM String :=
   match runOpAlgebra (α := α) op with
+  | some m => m
+  | none =>
+  match runOpGeom (α := α) op with
+  | some m => m
+  | none =>
+  match runOpMesh (α := α) op with
   | some m => m
   | none =>
   match runOpPrim (α := α) op with
